@@ -166,7 +166,14 @@ struct ResourceLayout : Family {
 					continue;
 				}
 			}
-			if (c < 40) { op = mkline("op", "get"); op.set("q", quoteToken(q)).set("arch", r.chance(3, 4) ? 1 : 0); }
+			if (c < 40) {
+				// one query in eight carries a directory part (an existing sub-directory's name, or one that does not exist): a name in
+				// another directory is another name
+				if (r.chance(1, 8)) q = (r.chance(1, 2) ? std::string("nosuch") : pool[r.below(pool.size())]) + "/" + q;
+				op = mkline("op", "get"); op.set("q", quoteToken(q)).set("arch", r.chance(3, 4) ? 1 : 0);
+				// fault: an allocation fails inside this call (its own answer is then not judged; every later answer is)
+				if (r.chance(1, 10)) op.set("allocfail", 1 + r.below(20));
+			}
 			else if (c < 45) { op = mkline("op", "get"); op.set("q", quoteToken(r.chance(1, 2) ? "/" + q : "/abs/" + q)).set("arch", 1); }
 			else if (c < 57) { op = mkline("op", "type"); op.set("ext", quoteToken(std::string(EXT[r.below(4)]))).set("arch", r.chance(3, 4) ? 1 : 0); }
 			else if (c < 69) { std::string nm = pool[r.below(pool.size())]; size_t a = r.below(nm.size()), b = 1 + r.below(3); std::string pat; for (char ch : nm.substr(a, b)) if (isalpha(static_cast<unsigned char>(ch))) pat.push_back(ch); if (pat.empty()) pat = "a"; op = mkline("op", "pattern"); op.set("pat", pat).set("arch", r.chance(3, 4) ? 1 : 0); }
@@ -226,6 +233,8 @@ struct ResourceLayout : Family {
 				std::vector<uint8_t> got;
 				bool null = false;
 				uint64_t weirdLen = 0;
+				uint64_t injectedBefore = g_alloc.injectedFailures;
+				g_alloc.failCountdown = op.u("allocfail", 0);
 				o = callLib(plan, [&] {
 					s = (arch && (oi & 1)) ? rm->GetResourceStream(q) : rm->GetResourceStream(q, arch); // default argument = archives allowed
 					if (!s) { null = true; return; }
@@ -234,7 +243,9 @@ struct ResourceLayout : Family {
 					got.resize(static_cast<size_t>(len));
 					s->Read(got.data(), got.size());
 				}, &what);
+				g_alloc.failCountdown = 0;
 				{ Armed a; s.reset(); }
+				if (g_alloc.injectedFailures != injectedBefore) { ctx.count("fault.alloc_fail"); ctx.event("get under allocation failure"); if (o == ErrOther) ctx.fail("C17.loose-first", "non-std exception under an allocation failure"); continue; }
 				std::string desc = "GetResourceStream('" + q + "', accessArchives=" + (arch ? "true" : "false") + ")";
 				if (!q.empty() && q[0] == '/') {
 					if (o == OkOut) ctx.fail("C17.rooted-refused", desc + ": a rooted path must be refused");
